@@ -34,11 +34,12 @@ pub struct Gen<'a> {
     /// most of the workload (many threads hammering the same accessor on the
     /// same values).
     hot: bool,
+    pub thorough: bool,
 }
 
 impl<'a> Gen<'a> {
     pub fn new(seed: u64, image: &'a Image) -> Self {
-        let mut g = Gen { rng: Rng::derive(seed, 0x9e4, 1), image, zones: vec![], named: vec![], recent: vec![], last_op: None, hot: false };
+        let mut g = Gen { rng: Rng::derive(seed, 0x9e4, 1), image, zones: vec![], named: vec![], recent: vec![], last_op: None, hot: false, thorough: false };
         g.pick_zones();
         g
     }
@@ -67,6 +68,7 @@ impl<'a> Gen<'a> {
     }
 
     fn pick_zones_n(&mut self, n: usize) {
+        #[allow(unused_assignments)]
         let mut named = vec![];
         for _ in 0..n {
             named.push(self.rng.pick(&self.image.zones).clone());
@@ -86,6 +88,22 @@ impl<'a> Gen<'a> {
             named.push(self.rng.pick(&self.image.midnight_gap_zones).clone());
         }
         let mut zones = named.clone();
+        // the posix/ and right/ (leap-second) variants of a zone, and of a
+        // link to it: other files, maybe other data, under related names
+        if self.rng.chance(1, 5) {
+            let base = if !self.image.links.is_empty() && self.rng.chance(1, 2) {
+                self.rng.pick(&self.image.links).clone()
+            } else {
+                self.rng.pick(&named).clone()
+            };
+            for prefix in ["", "right/", "posix/"] {
+                let id = format!("{prefix}{base}");
+                if self.image.zone(&id).is_some() && self.rng.chance(2, 3) {
+                    named.push(id);
+                }
+            }
+            zones = named.clone();
+        }
         // always mixed with a fixed-offset zone, an unknown and a wrong-case name
         zones.push(self.rng.pick(&["+05:30", "-03:00", "+00:00", "Z"]).to_string());
         zones.push(self.rng.pick(&["No/Such_Zone", "Europe/Atlantis", "Mars/Olympus"]).to_string());
@@ -232,15 +250,21 @@ impl<'a> Gen<'a> {
         };
     }
 
+    /// Is the scripted world of a `Now` operation faulty — a clock outside
+    /// the representable range, a failing host lookup, or a host answer that
+    /// does not name a zone of the database? (A valid zone, however unusual
+    /// its name, and a valid reading, however far in the future, are inputs,
+    /// not faults.)
     pub fn is_world_fault(o: &Op) -> bool {
-        o.kind.starts_with("now.")
-            && (o.clock.first().map(|c| *c < 0 || *c > NS_MAX).unwrap_or(false)
-                || o.host == "err"
-                || (o.host.starts_with("ok:") && o.host != "ok:UTC" && !o.host[3..].chars().next().map(|c| c.is_ascii_uppercase()).unwrap_or(false))
-                || o.host == "ok:No/Such_Zone"
-                || o.host == "ok:Etc/Unknown"
-                || o.host.starts_with("ok:Very/")
-                || o.host.ends_with(' '))
+        if !o.kind.starts_with("now.") {
+            return false;
+        }
+        let bad_clock = o.clock.first().map(|c| *c < 0 || *c > NS_MAX).unwrap_or(false);
+        let bad_host = match o.host.strip_prefix("ok:") {
+            None => true,
+            Some(name) => crate::simenv::sim().image.zone(name).is_none(),
+        };
+        bad_clock || bad_host
     }
 
     pub fn disk_fault(&mut self, enabled: &[FaultKind]) -> Fault {
@@ -256,6 +280,21 @@ impl<'a> Gen<'a> {
     }
 
     pub fn strategy(&mut self) -> Strategy {
+        // a slow / stalled thread: stalls of 10^2..10^4 (thorough: ..10^5)
+        // scheduling steps. (Much longer ones — TZSIM_STALL7_ONE_IN=<n> makes
+        // one run in n stall for 10^7 steps — cost seconds per run and are
+        // not part of the registered checks.)
+        if let Some(rate) = std::env::var("TZSIM_STALL7_ONE_IN").ok().and_then(|s| s.parse::<u64>().ok()) {
+            if self.rng.chance(1, rate.max(1)) {
+                return Strategy::Stall(7);
+            }
+        }
+        if self.thorough && self.rng.chance(1, 200) {
+            return Strategy::Stall(5);
+        }
+        if self.rng.chance(1, 10) {
+            return Strategy::Stall(*self.rng.pick(&[2u8, 3, 4]));
+        }
         match self.rng.below(4) {
             0 => Strategy::Random,
             1 => Strategy::Sticky(8 + self.rng.below(7) as u8),
